@@ -219,18 +219,14 @@ class Asian(Underlying):
     def __init__(self, discretisation: Discretisation = Discretisation.DAILY):
         """Arithmetic Asian underlying"""
         self.yf = discretisation_year_fraction(discretisation)
-        self._spot = Spot()
-
-    def update(self, process_representation: ProcessRepresentation):
-        self._spot.update(process_representation)
 
     def value(
         self, times, path: np.array, jump_path: np.array, payoff_underlying=None
     ) -> np.array:
         """:return: the average of the spot underlying over the times"""
         res, last_t = 0, 0
-        path = self._spot.value(times, path, jump_path, payoff_underlying)
-        for t, val in zip(times, path):
+        # one spot value per time (the last axis of the path is the time axis)
+        for t, val in zip(times, np.asarray(path).T):
             last_t, res = t, res + val * (t - last_t)
 
         return res / last_t
@@ -238,7 +234,10 @@ class Asian(Underlying):
     def _value_log(
         self, times, path: np.array, jump_path: np.array, payoff_underlying=None
     ) -> np.array:
-        return self.value(times, np.exp(path), np.exp(jump_path), payoff_underlying)
+        # not self.value: update() switches it to this very function for the log-representation
+        return Asian.value(
+            self, times, np.exp(path), np.exp(jump_path), payoff_underlying
+        )
 
     def compute_times_grid(self, maturity: float) -> TimeGrid:
         num = int(maturity / self.yf) + 1
